@@ -32,6 +32,9 @@ type c19Scn struct {
 	TCP      bool        `json:"tcp_fallback"`
 	Health0  int         `json:"initial_health"`
 	Answers  []c19Answer `json:"answers"`
+	// the probe sequence counter starts just below 2^32 and, while each probe is pending, the node is
+	// made to allocate one more number (it relays a probe for somebody else): numbers wrap mid-probe
+	NearWrap bool `json:"sequence_numbers_near_wraparound,omitempty"`
 }
 
 func runC19Probe(run *Run, seed int64, sc c19Scn) (out []*c01Result) {
@@ -72,6 +75,12 @@ func runC19Probe(run *Run, seed int64, sc c19Scn) (out []*c01Result) {
 	}
 	rig.Introduce(T, 1)
 	Settle(time.Millisecond)
+	var Q *FakePeer
+	if sc.NearWrap {
+		m.VerifSetSequenceNum(0xFFFFFFFF - uint32(seed%3))
+		Q = rig.AddPeer("Q", "10.9.4.1", 7946)
+		rig.AddPeer("Z", "10.9.4.2", 7946) // silent
+	}
 	// raise the health score by accusing V (each refutation is +1)
 	for i := 0; i < sc.Health0; i++ {
 		T.Send(Enc(TSuspect, &WSuspect{Incarnation: uint32(1000 + i), Node: "V", From: "T"}))
@@ -199,6 +208,10 @@ func runC19Probe(run *Run, seed int64, sc c19Scn) (out []*c01Result) {
 			return
 		}
 		p := cur
+		if Q != nil {
+			Q.Send(Enc(TIndirectPing, &WIndirectPing{SeqNo: uint32(9000 + ai), Target: []byte{10, 9, 4, 2}, Port: 7946, Node: "Z", Nack: false, SourceAddr: []byte(Q.EP.IP), SourcePort: 7946, SourceNode: "Q"}))
+			run.Cell("probe-near-wrap", fmt.Sprintf("seq-above-2^31=%v", p.seq > 1<<31))
+		}
 		hBefore := p.health
 		interval := time.Duration(p.health+1) * cf.ProbeInterval
 		deadline := p.at.Add(interval)
@@ -492,6 +505,78 @@ func runC19Relay(run *Run, seed int64, rng *rand.Rand) (out []*c01Result) {
 			return
 		}
 	}
+	// overlapping requests: two requesters ask about the same target at the same instant; each must be
+	// served under its own sequence number, whether the target answers both forwarded pings or none
+	R2 := rig.AddPeer("R2", "10.9.1.2", 7946)
+	for k := 0; k < 12; k++ {
+		r1, r2 := uint32(7000+k), uint32(8000+k)
+		both := k%2 == 0
+		nT, n1, n2 := len(T.Received()), len(R.Received()), len(R2.Received())
+		R.Send(Enc(TIndirectPing, &WIndirectPing{SeqNo: r1, Target: []byte(T.EP.IP), Port: 7946, Node: "T", Nack: true, SourceAddr: []byte(R.EP.IP), SourcePort: 7946, SourceNode: "R"}))
+		R2.Send(Enc(TIndirectPing, &WIndirectPing{SeqNo: r2, Target: []byte(T.EP.IP), Port: 7946, Node: "T", Nack: true, SourceAddr: []byte(R2.EP.IP), SourcePort: 7946, SourceNode: "R2"}))
+		Settle(2 * time.Millisecond)
+		var fresh []uint32
+		for _, p := range T.Received()[nT:] {
+			for _, l := range p.Info.Leaves {
+				if l.Type == TPing {
+					var pg WPing
+					if mpDecode(l.Body, &pg) == nil {
+						fresh = append(fresh, pg.SeqNo)
+					}
+				}
+			}
+		}
+		run.Eval(1)
+		run.Cell("relay", "overlap", fmt.Sprintf("target-answers=%v", both))
+		if len(fresh) != 2 || fresh[0] == fresh[1] {
+			fail("forward-count", "two overlapping indirect-ping requests produced forwarded pings %v", fresh)
+			return
+		}
+		if both {
+			Settle(50 * time.Millisecond)
+			for _, f := range fresh {
+				T.Send(Enc(TAck, &WAck{SeqNo: f}))
+			}
+		}
+		Settle(700 * time.Millisecond)
+		count := func(fp *FakePeer, from int, own uint32) (acks, nacks, foreign int) {
+			for _, p := range fp.Received()[from:] {
+				for _, l := range p.Info.Leaves {
+					switch l.Type {
+					case TAck:
+						var a WAck
+						if mpDecode(l.Body, &a) == nil {
+							if a.SeqNo == own {
+								acks++
+							} else {
+								foreign++
+							}
+						}
+					case TNack:
+						var a WNack
+						if mpDecode(l.Body, &a) == nil {
+							if a.SeqNo == own {
+								nacks++
+							} else {
+								foreign++
+							}
+						}
+					}
+				}
+			}
+			return
+		}
+		a1, k1, f1 := count(R, n1, r1)
+		a2, k2, f2 := count(R2, n2, r2)
+		wa, wk := 0, 1
+		if both {
+			wa, wk = 1, 0
+		}
+		if a1 != wa || k1 != wk || a2 != wa || k2 != wk || f1 != 0 || f2 != 0 {
+			fail("relay-outcome/overlap", "two requesters (r=%d and r=%d) asked about the same target at once, target answered both=%v: R got %d ack(s) %d nack(s) %d reply(ies) under a foreign number, R2 got %d/%d/%d; expected %d ack(s) and %d nack(s) each, none foreign", r1, r2, both, a1, k1, f1, a2, k2, f2, wa, wk)
+			return
+		}
+	}
 	Settle(time.Second)
 	if n := rig.V.ML().VerifAckHandlers(); n != 0 {
 		fail("handler-leak", "%d relay handlers remain after every probe timeout has passed", n)
@@ -524,6 +609,7 @@ func genC19(rng *rand.Rand) c19Scn {
 		}
 		sc.Answers = append(sc.Answers, a)
 	}
+	sc.NearWrap = rng.Intn(4) == 0
 	return sc
 }
 
@@ -581,7 +667,7 @@ func TestC19(t *testing.T) {
 		}
 	}
 	if !run.Replaying() {
-		run.Require("relay|ack-early|nack=true", "relay|ack-late|nack=true", "relay|no-ack|nack=true", "relay|no-ack|nack=false", "relay|ack-wrong-seq|nack=true", "relay|ack-from-other|nack=false", "relay|send-error|nack=true", "relay|send-error|nack=false")
+		run.Require("relay|ack-early|nack=true", "relay|ack-late|nack=true", "relay|no-ack|nack=true", "relay|no-ack|nack=false", "relay|ack-wrong-seq|nack=true", "relay|ack-from-other|nack=false", "relay|send-error|nack=true", "relay|send-error|nack=false", "relay|overlap|target-answers=true", "relay|overlap|target-answers=false", "probe-near-wrap|seq-above-2^31=true")
 	}
 	run.Complete()
 	if run.Violations() > 0 {
